@@ -483,5 +483,477 @@ theorem dir_good (d : Dir) (hwf : dirWf T d = true) (i : Nat) (x0 : Ectx) (s : L
         (by simpa using s2 _ (by rw [hiriref]; simp [SkEq]))
       simpa [envOf] using s1
 
+/-! ### inside `{ … }` (TriG) -/
+
+theorem steps_trans_nil {C : Cfg} {c1 c2 c3 : Conf} {ss : List Stmt} (h1 : Steps C .eof c1 ss c2) (h2 : Steps C .eof c2 [] c3) :
+    Steps C .eof c1 ss c3 := by simpa using h1.trans h2
+
+/-- The run from `reader_scan_triples` over a printed subject up to the predicate-object list. -/
+def SubjBodyGood (T : Tables) (C : Cfg) (ch : Choices) (sj : Subj) : Prop :=
+  ∀ (i : Nat) (xg : Ectx) (g : Option TermB) (s : List Frame) (inp R : List Nat) (st st1 : DState) (sT : TermB)
+    (qs : List QuadB),
+    xg.subj = none → xg.graph = g.map toT →
+    dSubj C.resolve g st sj = some (sT, qs, st1) →
+    SkEq C inp (pSubj ⟨T, ch⟩ i sj R) →
+    ∃ (inp' : List Nat) (req : Bool) (x' : Ectx), SkEq C inp' R ∧ x'.subj = some (toT sT) ∧ x'.graph = g.map toT ∧
+      Steps C .eof ⟨⟨xg, .triples⟩ :: s, inp, envOf st⟩ (qs.map toStmt)
+        ⟨⟨x', if req then .polRequired else .pol⟩ :: ⟨x', .polContinue⟩ :: s, inp', envOf st1⟩
+
+include hT hT2 hC hch in
+theorem subjBody_flat (sj : Subj) (hwf : subjWf T sj = true) (hfl : subjFlat sj = true) : SubjBodyGood T C ch sj := by
+  intro i xg g s inp R st st1 sT qs hxs hxg hd hin
+  cases sj with
+  | iri x1 =>
+    simp only [dSubj, dObj, Option.map_eq_some_iff] at hd
+    obtain ⟨ii, hii, heq⟩ := hd
+    simp only [Prod.mk.injEq] at heq
+    obtain ⟨rfl, rfl, rfl⟩ := heq
+    have hwf : iriWf T x1 = true := by simpa [subjWf] using hwf
+    cases x1 with
+    | ref rr =>
+      have hs : Scalars rr := scalars_of_B (by simpa [iriWf] using hwf)
+      have hres : resolveIRI C (envOf st) rr = some ii := by rw [← iriOf_ref]; exact hii
+      have htext : printIRIREF (ch.at i).cs rr ++ after T .punct (ch.at i) R =
+          0x3c :: (printIriBody (ch.at i).cs rr ++ [0x3e] ++ after T .punct (ch.at i) R) := by simp [printIRIREF]
+      have htx : pSubj ⟨T, ch⟩ i (.iri (.ref rr)) R = 0x3c :: (printIriBody (ch.at i).cs rr ++ [0x3e] ++ after T .punct (ch.at i) R) := by
+        simp [pSubj, pObj, pIri, iriText, iriKind, printIRIREF]
+      refine ⟨_, true, { xg with subj := some (.iri ii) }, after_skip (T := T) hC .punct (ch.at i) (slot_ok hch i) R, rfl, hxg, ?_⟩
+      have s2 := Steps.tok hT2 hC (f := ⟨xg, .subjIRIREF⟩) (s := s) (env := envOf st)
+        (inp := 0x3c :: (printIriBody (ch.at i).cs rr ++ [0x3e] ++ after T .punct (ch.at i) R)) SkEq.rfl' rfl
+        (solid_delim (by decide) (by decide)) (by decide)
+        ((fn_subjIRIREF hT hC xg (envOf st) _ rr ii _ _ _ htext hs hres).trans (subjectTail_eq _ _ _ _)) (Steps.refl _)
+      have s1 := Steps.tok hT2 hC (f := ⟨xg, .triples⟩) (s := s) (env := envOf st) hin htx
+        (solid_delim (by decide) (by decide)) (by decide) (fn_triples_iriref xg (envOf st) _) (by simpa using s2)
+      simpa using s1
+    | pn p l =>
+      simp only [iriWf, Bool.and_eq_true] at hwf
+      obtain ⟨⟨⟨hp, hps⟩, hls⟩, hpl⟩ := hwf
+      obtain ⟨out, hout⟩ := pname_printable (p := p) (ch.at i).cs hpl
+      have hex : (envOf st).expand p l = some ii := by rw [← iriOf_pn]; exact hii
+      have hcl := after_noclash hT2 .name (ch.at i) R (T := T)
+      obtain ⟨lo, hlo⟩ := pname_shape hout
+      obtain ⟨c0, tl0, htext⟩ : ∃ c0 tl0, out ++ after T .name (ch.at i) R = c0 :: tl0 := by rw [hlo]; cases p <;> simp
+      have htext' : p ++ 0x3a :: (lo ++ after T .name (ch.at i) R) = c0 :: tl0 := by rw [← htext, hlo]; simp
+      obtain ⟨hso, h23⟩ := nameStart_solid hT2 (prefix_head hp _ c0 tl0 htext')
+      have htx : pSubj ⟨T, ch⟩ i (.iri (.pn p l)) R = c0 :: tl0 := by simp [pSubj, pObj, pIri, iriText, iriKind, hout, htext]
+      refine ⟨_, true, { xg with subj := some (.iri ii) }, after_skip (T := T) hC .name (ch.at i) (slot_ok hch i) R, rfl, hxg, ?_⟩
+      have s2 := Steps.tok hT2 hC (f := ⟨xg, .subjPName⟩) (s := s) (env := envOf st)
+        (inp := c0 :: tl0) SkEq.rfl' rfl hso h23
+        ((fn_subjPName hT hC xg (envOf st) _ p l out ii _ c0 tl0 htext hp (scalars_of_B hps) (scalars_of_B hls) hout hcl hex).trans
+          (subjectTail_eq _ _ _ _)) (Steps.refl _)
+      have s1 := Steps.tok hT2 hC (f := ⟨xg, .triples⟩) (s := s) (env := envOf st) hin htx hso h23
+        (fn_triples_pname hT2 hC xg (envOf st) hp _ c0 tl0 htext') (by simpa using s2)
+      simpa using s1
+  | bn l =>
+    simp only [dSubj, dObj, Option.some.injEq, Prod.mk.injEq] at hd
+    obtain ⟨rfl, rfl, rfl⟩ := hd
+    have hwf : labelWf T l = true := by simpa [subjWf] using hwf
+    simp only [labelWf, Bool.and_eq_true] at hwf
+    have hcl := after_noclash hT2 .label (ch.at i) R (T := T)
+    have htx : pSubj ⟨T, ch⟩ i (.bn l) R = 0x5f :: (0x3a :: l ++ after T .label (ch.at i) R) := by simp [pSubj, pObj, pBNode]
+    have hus : solid T 0x5f = true := solid_pn (hT2.u_sub 0x5f hT2.us)
+    refine ⟨_, true, { xg with subj := some (.bnode (.lbl l)) }, after_skip (T := T) hC .label (ch.at i) (slot_ok hch i) R, rfl, hxg, ?_⟩
+    have s2 := Steps.tok hT2 hC (f := ⟨xg, .subjBNode⟩) (s := s) (env := envOf st)
+      (inp := 0x5f :: (0x3a :: l ++ after T .label (ch.at i) R)) SkEq.rfl' rfl hus (by decide)
+      ((fn_subjBNode hT hC xg (envOf st) l _ (scalars_of_B hwf.1) hwf.2 hcl).trans (subjectTail_eq _ _ _ _)) (Steps.refl _)
+    have s1 := Steps.tok hT2 hC (f := ⟨xg, .triples⟩) (s := s) (env := envOf st) hin htx hus (by decide)
+      (fn_triples_bnode xg (envOf st) _) (by simpa using s2)
+    simpa [toT, Term.map, toBN] using s1
+  | anon =>
+    simp only [dSubj, dObj, Option.some.injEq, Prod.mk.injEq] at hd
+    obtain ⟨rfl, rfl, rfl⟩ := hd
+    have hA1 := after_skip (T := T) hC .punct (ch.at i) (slot_ok hch i) (0x5d :: after T .punct (ch.at (i + 1)) R)
+    have hA2 := after_skip (T := T) hC .punct (ch.at (i + 1)) (slot_ok hch (i + 1)) R
+    have htx : pSubj ⟨T, ch⟩ i .anon R = 0x5b :: after T .punct (ch.at i) (0x5d :: after T .punct (ch.at (i + 1)) R) := by
+      simp [pSubj, pObj, pPunct]
+    have hf5d : Follows C (0x5d :: after T .punct (ch.at (i + 1)) R) 0x5d (after T .punct (ch.at (i + 1)) R) :=
+      follows_solid hT2 hC (solid_delim (by decide) (by decide)) (by decide) _
+    let x' : Ectx := { xg with subj := some (envOf st).fresh.1 }
+    refine ⟨_, false, x', hA2, rfl, hxg, ?_⟩
+    have s4 := Steps.fol hT2 hC (f := ⟨x', .bnplEnd⟩) (s := ⟨x', .pol⟩ :: ⟨x', .polContinue⟩ :: s)
+      (env := (envOf st).fresh.2) (inp := 0x5d :: after T .punct (ch.at (i + 1)) R) SkEq.rfl' hf5d
+      (fn_bnplEnd _ _ _) (Steps.refl _)
+    have s3 := Steps.fol hT2 hC (f := ⟨x', .polContinue⟩) (s := ⟨x', .bnplEnd⟩ :: ⟨x', .pol⟩ :: ⟨x', .polContinue⟩ :: s)
+      (env := (envOf st).fresh.2) (inp := 0x5d :: after T .punct (ch.at (i + 1)) R) SkEq.rfl' hf5d
+      (fn_polContinue_pop _ _ _ _ (by decide)) (by simpa using s4)
+    have s2 := Steps.fol hT2 hC (f := ⟨x', .pol⟩)
+      (s := ⟨x', .polContinue⟩ :: ⟨x', .bnplEnd⟩ :: ⟨x', .pol⟩ :: ⟨x', .polContinue⟩ :: s)
+      (env := (envOf st).fresh.2) hA1 hf5d (fn_pol_pop hT2 hC _ _ _ _ (Or.inr (Or.inl rfl))) (by simpa using s3)
+    have s1 := Steps.tok hT2 hC (f := ⟨xg, .triples⟩) (s := s) (env := envOf st) hin htx
+      (solid_delim (by decide) (by decide)) (by decide) (fn_triples_bracket xg (envOf st) _) (by simpa [x'] using s2)
+    simpa [envOf_fresh, toT, Term.map, toBN, DState.fresh, Env.fresh, envOf, x'] using s1
+  | bnpl pos => simp [subjFlat] at hfl
+  | coll items =>
+    cases items with
+    | cons a b => simp [subjFlat] at hfl
+    | nil =>
+      simp only [dSubj, dObj, Option.some.injEq, Prod.mk.injEq] at hd
+      obtain ⟨rfl, rfl, rfl⟩ := hd
+      have hA1 := after_skip (T := T) hC .punct (ch.at i) (slot_ok hch i) (0x29 :: after T .punct (ch.at (i + 1)) R)
+      have hA2 := after_skip (T := T) hC .punct (ch.at (i + 1)) (slot_ok hch (i + 1)) R
+      have htx : pSubj ⟨T, ch⟩ i (.coll []) R = 0x28 :: after T .punct (ch.at i) (0x29 :: after T .punct (ch.at (i + 1)) R) := by
+        simp [pSubj, pObj, pPunct, pItems, itemsSlots]
+      refine ⟨_, true, { xg with subj := some (.iri TtlDoc.rdfNil) }, hA2, rfl, hxg, ?_⟩
+      have s2 := Steps.fol hT2 hC (f := ⟨xg, .parenBlock (envOf st).fresh.1⟩) (s := s)
+        (env := (envOf st).fresh.2) hA1 (follows_solid hT2 hC (solid_delim (by decide) (by decide)) (by decide) _)
+        (fn_parenBlock_close _ _ _ _) (Steps.refl _)
+      have s1 := Steps.tok hT2 hC (f := ⟨xg, .triples⟩) (s := s) (env := envOf st) hin htx
+        (solid_delim (by decide) (by decide)) (by decide) (fn_triples_paren xg (envOf st) _) (by simpa using s2)
+      simpa [envOf_fresh] using s1
+
+include hT2 hC hch in
+/-- a (nesting-free) subject starts with a token other than `}` -/
+theorem pSubj_follows (sj : Subj) (hwf : subjWf T sj = true) (hfl : subjFlat sj = true) (i : Nat) (R : List Nat) :
+    ∃ c r, Follows C (pSubj ⟨T, ch⟩ i sj R) c r ∧ c ≠ 0x7d := by
+  cases sj with
+  | iri x1 =>
+    have := pVerb_follows hT2 hC hch (.iri x1) (by simpa [subjWf, verbWf] using hwf) i R
+    obtain ⟨c, r, h1, _, h3⟩ := this
+    exact ⟨c, r, by simpa [pSubj, pObj, pVerb] using h1, h3⟩
+  | bn l =>
+    exact ⟨0x5f, _, by
+      have : pSubj ⟨T, ch⟩ i (.bn l) R = 0x5f :: (0x3a :: l ++ after T .label (ch.at i) R) := by simp [pSubj, pObj, pBNode]
+      rw [this]; exact follows_solid hT2 hC (solid_pn (hT2.u_sub 0x5f hT2.us)) (by decide) _, by decide⟩
+  | anon =>
+    exact ⟨0x5b, _, by
+      have : pSubj ⟨T, ch⟩ i .anon R = 0x5b :: after T .punct (ch.at i) (0x5d :: after T .punct (ch.at (i + 1)) R) := by
+        simp [pSubj, pObj, pPunct]
+      rw [this]; exact follows_solid hT2 hC (solid_delim (by decide) (by decide)) (by decide) _, by decide⟩
+  | bnpl pos => simp [subjFlat] at hfl
+  | coll items =>
+    cases items with
+    | cons a b => simp [subjFlat] at hfl
+    | nil =>
+      exact ⟨0x28, _, by
+        have : pSubj ⟨T, ch⟩ i (.coll []) R = 0x28 :: after T .punct (ch.at i) (0x29 :: after T .punct (ch.at (i + 1)) R) := by
+          simp [pSubj, pObj, pPunct, pItems, itemsSlots]
+        rw [this]; exact follows_solid hT2 hC (solid_delim (by decide) (by decide)) (by decide) _, by decide⟩
+
+/-- what the body lemma needs of one `triples` -/
+structure TriplesFit (T : Tables) (C : Cfg) (ch : Choices) (t : Triples) : Prop where
+  subj : SubjBodyGood T C ch t.s
+  head : ∀ i R, ∃ c r, Follows C (pSubj ⟨T, ch⟩ i t.s R) c r ∧ c ≠ 0x7d
+  ne : t.pos ≠ []
+  fit : ∀ po ∈ t.pos, POFit T C ch po
+
+include hT hT2 hC hch in
+/-- `subject predicateObjectList` inside a graph block, up to the `.` or `}` after it -/
+theorem triples_body (t : Triples) (hfit : TriplesFit T C ch t) (i : Nat) (xg : Ectx) (g : Option TermB) (s : List Frame)
+    (inp R : List Nat) (c : Nat) (r : List Nat) (st st' : DState) (qs : List QuadB)
+    (hxs : xg.subj = none) (hxg : xg.graph = g.map toT) (hf : Follows C R c r) (hc : c = 0x2e ∨ c = 0x7d)
+    (hd : dTriples C.resolve g st t = some (qs, st')) (hin : SkEq C inp (pTriples ⟨T, ch⟩ i t R)) :
+    ∃ inp', SkEq C inp' R ∧ Steps C .eof ⟨⟨xg, .triples⟩ :: s, inp, envOf st⟩ (qs.map toStmt) ⟨s, inp', envOf st'⟩ := by
+  simp only [dTriples] at hd
+  cases hds : dSubj C.resolve g st t.s with
+  | none => simp [hds] at hd
+  | some res =>
+    obtain ⟨sT, qs1, st1⟩ := res
+    simp only [hds] at hd
+    cases hdp : dPOs C.resolve sT g st1 t.pos with
+    | none => simp [hdp] at hd
+    | some res2 =>
+      obtain ⟨qs2, st2⟩ := res2
+      simp only [hdp, Option.some.injEq, Prod.mk.injEq] at hd
+      obtain ⟨rfl, rfl⟩ := hd
+      obtain ⟨inp1, req, x', he1, hx's, hx'g, s1⟩ := hfit.subj i xg g s inp _ st st1 sT qs1 hxs hxg hds
+        (by simpa [pTriples] using hin)
+      obtain ⟨inp2, he2, s2⟩ := posGood hT hT2 hC hch t.pos hfit.fit (i + subjSlots t.s) x' s inp1 R c r g st1 st2 qs2 sT req hf
+        (by rcases hc with h | h; exact Or.inl h; exact Or.inr (Or.inr h)) hx's hx'g hfit.ne hdp he1
+      exact ⟨inp2, he2, by simpa using s1.trans s2⟩
+
+include hT hT2 hC hch in
+/-- the body of a graph block, from `reader_scan_triplesBlock` to the closing `}` (left in the buffer) -/
+theorem body_good (body : List Triples) (hfit : ∀ t ∈ body, TriplesFit T C ch t) : ∀ (i : Nat) (xg : Ectx) (g : Option TermB)
+    (s : List Frame) (inp R : List Nat) (r : List Nat) (st st' : DState) (qs : List QuadB),
+    xg.subj = none → xg.graph = g.map toT → Follows C R 0x7d r →
+    dBody C.resolve g st body = some (qs, st') → SkEq C inp (pBody ⟨T, ch⟩ i body R) →
+    ∃ inp', SkEq C inp' R ∧ Steps C .eof ⟨⟨xg, .triplesBlock⟩ :: s, inp, envOf st⟩ (qs.map toStmt) ⟨s, inp', envOf st'⟩ := by
+  induction body with
+  | nil =>
+    intro i xg g s inp R r st st' qs hxs hxg hf hd hin
+    simp only [dBody, Option.some.injEq, Prod.mk.injEq] at hd
+    obtain ⟨rfl, rfl⟩ := hd
+    refine ⟨0x7d :: r, by rw [hf.1]; exact SkEq.rfl', ?_⟩
+    simpa using Steps.fol hT2 hC (f := ⟨xg, .triplesBlock⟩) (s := s) (env := envOf st) (by simpa [pBody] using hin) hf
+      (fn_triplesBlock_close xg _ r) (Steps.refl _)
+  | cons t ts ih =>
+    intro i xg g s inp R r st st' qs hxs hxg hf hd hin
+    have ht := hfit t List.mem_cons_self
+    simp only [dBody] at hd
+    cases hdt : dTriples C.resolve g st t with
+    | none => simp [hdt] at hd
+    | some res =>
+      obtain ⟨qs1, st1⟩ := res
+      simp only [hdt] at hd
+      cases hdb : dBody C.resolve g st1 ts with
+      | none => simp [hdb] at hd
+      | some res2 =>
+        obtain ⟨qs2, st2⟩ := res2
+        simp only [hdb, Option.some.injEq, Prod.mk.injEq] at hd
+        obtain ⟨rfl, rfl⟩ := hd
+        -- the pop of `reader_scan_triplesBlock` / `…_QUEST` on `}`
+        have hclose : ∀ (k : Cont) (hk : k = .triplesBlock ∨ k = .triplesBlockQuest) (inp1 : List Nat) (env : Env), SkEq C inp1 R →
+            Steps C .eof ⟨⟨xg, k⟩ :: s, inp1, env⟩ [] ⟨s, 0x7d :: r, env⟩ := by
+          intro k hk inp1 env h1
+          rcases hk with rfl | rfl
+          · simpa using Steps.fol hT2 hC (f := ⟨xg, .triplesBlock⟩) (s := s) (env := env) h1 hf
+              (fn_triplesBlock_close xg _ r) (Steps.refl _)
+          · simpa using Steps.fol hT2 hC (f := ⟨xg, .triplesBlockQuest⟩) (s := s) (env := env) h1 hf
+              (fn_triplesBlockQuest_close xg _ r) (Steps.refl _)
+        let j := i + triplesSlots t - 1
+        have hdotf : ∀ R', Follows C (pPunct ⟨T, ch⟩ j 0x2e R') 0x2e (after T .punct (ch.at j) R') := fun R' =>
+          follows_solid hT2 hC (solid_delim (by decide) (by decide)) (by decide) _
+        -- first step: `reader_scan_triplesBlock` sees the subject
+        have hopen : ∀ (R' : List Nat) (inp0 : List Nat) (env : Env) {ss cf}, SkEq C inp0 (pTriples ⟨T, ch⟩ i t R') →
+            (∀ inp1, SkEq C inp1 (pTriples ⟨T, ch⟩ i t R') →
+              Steps C .eof ⟨⟨xg, .triples⟩ :: ⟨xg, .triplesBlockQuest⟩ :: s, inp1, env⟩ ss cf) →
+            Steps C .eof ⟨⟨xg, .triplesBlock⟩ :: s, inp0, env⟩ ss cf := by
+          intro R' inp0 env ss cf h0 hnext
+          obtain ⟨c0, r0, hf0, hne0⟩ := ht.head i (pPOs ⟨T, ch⟩ (i + subjSlots t.s) t.pos R')
+          have := Steps.fol hT2 hC (f := ⟨xg, .triplesBlock⟩) (s := s) (env := env) h0 (by simpa [pTriples] using hf0)
+            (fn_triplesBlock_open xg _ c0 r0 hne0)
+            (by simpa using hnext (c0 :: r0) (by rw [show pTriples ⟨T, ch⟩ i t R' = c0 :: r0 from by simpa [pTriples] using hf0.1]; exact SkEq.rfl'))
+          simpa using this
+        cases ts with
+        | nil =>
+          refine ⟨0x7d :: r, by rw [hf.1]; exact SkEq.rfl', ?_⟩
+          simp only [dBody, Option.some.injEq, Prod.mk.injEq] at hdb
+          obtain ⟨rfl, rfl⟩ := hdb
+          by_cases hdot : (ch.at j).n % 2 = 1
+          · -- `t . }`
+            have hin' : SkEq C inp (pTriples ⟨T, ch⟩ i t (pPunct ⟨T, ch⟩ j 0x2e R)) := by
+              simpa [pBody, pStatement, j, hdot] using hin
+            apply hopen _ inp (envOf st) hin'
+            intro inp1 h1
+            obtain ⟨inp2, he2, s2⟩ := triples_body hT hT2 hC hch t ht i xg g (⟨xg, .triplesBlockQuest⟩ :: s) inp1 _ 0x2e _ st st1 qs1
+              hxs hxg (hdotf R) (Or.inl rfl) hdt h1
+            have s3 : Steps C .eof ⟨⟨xg, .triplesBlockQuest⟩ :: s, inp2, envOf st1⟩ [] ⟨s, 0x7d :: r, envOf st1⟩ := by
+              simpa using Steps.fol hT2 hC (f := ⟨xg, .triplesBlockQuest⟩) (s := s) (env := envOf st1) he2 (hdotf R)
+                (fn_triplesBlockQuest_dot xg _ _)
+                (by simpa using hclose .triplesBlock (Or.inl rfl) _ (envOf st1) (after_skip (T := T) hC .punct (ch.at j) (slot_ok hch j) R))
+            simpa using steps_trans_nil s2 s3
+          · -- `t }`
+            have hin' : SkEq C inp (pTriples ⟨T, ch⟩ i t R) := by simpa [pBody, j, hdot] using hin
+            apply hopen _ inp (envOf st) hin'
+            intro inp1 h1
+            obtain ⟨inp2, he2, s2⟩ := triples_body hT hT2 hC hch t ht i xg g (⟨xg, .triplesBlockQuest⟩ :: s) inp1 R 0x7d r st st1 qs1
+              hxs hxg hf (Or.inr rfl) hdt h1
+            simpa using steps_trans_nil s2 (hclose .triplesBlockQuest (Or.inr rfl) inp2 (envOf st1) he2)
+        | cons t' ts' =>
+          have hin' : SkEq C inp (pTriples ⟨T, ch⟩ i t (pPunct ⟨T, ch⟩ j 0x2e (pBody ⟨T, ch⟩ (i + triplesSlots t) (t' :: ts') R))) := by
+            simpa [pBody, pStatement, j] using hin
+          obtain ⟨inp3, he3, s4⟩ := ih (fun t2 ht2 => hfit t2 (List.mem_cons_of_mem _ ht2)) (i + triplesSlots t) xg g s
+            (after T .punct (ch.at j) (pBody ⟨T, ch⟩ (i + triplesSlots t) (t' :: ts') R)) R r st1 st2 qs2 hxs hxg hf hdb
+            (after_skip (T := T) hC .punct (ch.at j) (slot_ok hch j) _)
+          refine ⟨inp3, he3, ?_⟩
+          apply hopen _ inp (envOf st) hin'
+          intro inp1 h1
+          obtain ⟨inp2, he2, s2⟩ := triples_body hT hT2 hC hch t ht i xg g (⟨xg, .triplesBlockQuest⟩ :: s) inp1 _ 0x2e _ st st1 qs1
+            hxs hxg (hdotf _) (Or.inl rfl) hdt h1
+          have s3 : Steps C .eof ⟨⟨xg, .triplesBlockQuest⟩ :: s, inp2, envOf st1⟩ (qs2.map toStmt) ⟨s, inp3, envOf st2⟩ := by
+            simpa using Steps.fol hT2 hC (f := ⟨xg, .triplesBlockQuest⟩) (s := s) (env := envOf st1) he2 (hdotf _)
+              (fn_triplesBlockQuest_dot xg _ _) (by simpa using s4)
+          simpa using s2.trans s3
+
+/-! ### graph blocks (TriG) -/
+
+include hT hT2 hC hch in
+/-- from `reader_scan_triplesBlock` after `{` to after the closing `}` -/
+theorem graph_tail (body : List Triples) (hfit : ∀ t ∈ body, TriplesFit T C ch t) (j k : Nat) (xg : Ectx) (g : Option TermB)
+    (S : List Frame) (inp rest : List Nat) (st st' : DState) (qs : List QuadB)
+    (hxs : xg.subj = none) (hxg : xg.graph = g.map toT) (hd : dBody C.resolve g st body = some (qs, st'))
+    (hin : SkEq C inp (pBody ⟨T, ch⟩ j body (pPunct ⟨T, ch⟩ k 0x7d rest))) :
+    ∃ inp', SkEq C inp' rest ∧
+      Steps C .eof ⟨⟨xg, .triplesBlock⟩ :: ⟨xg, .wrappedGraphEnd⟩ :: S, inp, envOf st⟩ (qs.map toStmt) ⟨S, inp', envOf st'⟩ := by
+  have hfc : Follows C (pPunct ⟨T, ch⟩ k 0x7d rest) 0x7d (after T .punct (ch.at k) rest) :=
+    follows_solid hT2 hC (solid_delim (by decide) (by decide)) (by decide) _
+  obtain ⟨inp1, he1, s1⟩ := body_good hT hT2 hC hch body hfit j xg g (⟨xg, .wrappedGraphEnd⟩ :: S) inp _ _ st st' qs hxs hxg hfc hd hin
+  refine ⟨_, after_skip (T := T) hC .punct (ch.at k) (slot_ok hch k) rest, ?_⟩
+  have s2 : Steps C .eof ⟨⟨xg, .wrappedGraphEnd⟩ :: S, inp1, envOf st'⟩ [] ⟨S, after T .punct (ch.at k) rest, envOf st'⟩ := by
+    simpa using Steps.fol hT2 hC (f := ⟨xg, .wrappedGraphEnd⟩) (s := S) (env := envOf st') he1 hfc (fn_wrappedGraphEnd xg _ _)
+      (Steps.refl _)
+  exact steps_trans_nil s1 s2
+
+include hT hT2 hC hch in
+/-- a graph label (no `GRAPH` keyword): token, then `E1` sees `{` -/
+theorem label_top (htr : C.trig = true) (lab : GLabel) (hwf : glabelWf T lab = true) (j k : Nat) (x0 : Ectx) (s : List Frame)
+    (inp R : List Nat) (st st1 : DState) (gt : Option TermB) (hxs : x0.subj = none)
+    (hd : dLabel C.resolve st (some lab) = some (gt, st1))
+    (hin : SkEq C inp (pLabel ⟨T, ch⟩ j (some lab) (pPunct ⟨T, ch⟩ k 0x7b R))) :
+    ∃ (xg : Ectx), xg.subj = none ∧ xg.graph = gt.map toT ∧
+      Steps C .eof ⟨⟨x0, .statement⟩ :: s, inp, envOf st⟩ []
+        ⟨⟨xg, .triplesBlock⟩ :: ⟨xg, .wrappedGraphEnd⟩ :: ⟨x0, .statement⟩ :: s, after T .punct (ch.at k) R, envOf st1⟩ := by
+  have hfb : Follows C (pPunct ⟨T, ch⟩ k 0x7b R) 0x7b (after T .punct (ch.at k) R) :=
+    follows_solid hT2 hC (solid_delim (by decide) (by decide)) (by decide) _
+  have hE1 : ∀ (v : TtlDoc.T) (A : List Nat) (env : Env), SkEq C A (pPunct ⟨T, ch⟩ k 0x7b R) →
+      Steps C .eof ⟨⟨x0, .tgE1 v⟩ :: ⟨x0, .statement⟩ :: s, A, env⟩ []
+        ⟨⟨{ x0 with graph := some v }, .triplesBlock⟩ :: ⟨{ x0 with graph := some v }, .wrappedGraphEnd⟩ :: ⟨x0, .statement⟩ :: s,
+          after T .punct (ch.at k) R, env⟩ := by
+    intro v A env hA
+    simpa using Steps.fol hT2 hC (f := ⟨x0, .tgE1 v⟩) (s := ⟨x0, .statement⟩ :: s) (env := env) hA hfb
+      (fn_tgE1_brace x0 env v _) (Steps.refl _)
+  cases lab with
+  | iri x1 =>
+    simp only [dLabel, Option.map_eq_some_iff] at hd
+    obtain ⟨ii, hii, heq⟩ := hd
+    simp only [Prod.mk.injEq] at heq
+    obtain ⟨rfl, rfl⟩ := heq
+    have hwf : iriWf T x1 = true := by simpa [glabelWf] using hwf
+    refine ⟨{ x0 with graph := some (.iri ii) }, hxs, rfl, ?_⟩
+    cases x1 with
+    | ref rr =>
+      have hs : Scalars rr := scalars_of_B (by simpa [iriWf] using hwf)
+      have hres : resolveIRI C (envOf st) rr = some ii := by rw [← iriOf_ref]; exact hii
+      have htext : printIRIREF (ch.at j).cs rr ++ after T .punct (ch.at j) (pPunct ⟨T, ch⟩ k 0x7b R) =
+          0x3c :: (printIriBody (ch.at j).cs rr ++ [0x3e] ++ after T .punct (ch.at j) (pPunct ⟨T, ch⟩ k 0x7b R)) := by simp [printIRIREF]
+      have s1 := Steps.tok hT2 hC (f := ⟨x0, .statement⟩) (s := s) (env := envOf st) hin
+        (show pLabel ⟨T, ch⟩ j (some (.iri (.ref rr))) (pPunct ⟨T, ch⟩ k 0x7b R) = _ by
+          simpa [pLabel, pIri, iriText, iriKind] using htext)
+        (solid_delim (by decide) (by decide)) (by decide)
+        (fn_statement_trig_term htr x0 (envOf st) _ _ _ _ _
+          (stepStatementRune_trig_iriref hT hC htr x0 (envOf st) _ rr ii _ _ _ htext hs hres))
+        (by simpa using hE1 _ _ _ (after_skip (T := T) hC .punct (ch.at j) (slot_ok hch j) _))
+      simpa [toT, Term.map] using s1
+    | pn p l =>
+      simp only [iriWf, Bool.and_eq_true] at hwf
+      obtain ⟨⟨⟨hp, hps⟩, hls⟩, hpl⟩ := hwf
+      obtain ⟨out, hout⟩ := pname_printable (p := p) (ch.at j).cs hpl
+      have hex : (envOf st).expand p l = some ii := by rw [← iriOf_pn]; exact hii
+      have hcl := after_noclash hT2 .name (ch.at j) (pPunct ⟨T, ch⟩ k 0x7b R) (T := T)
+      obtain ⟨lo, hlo⟩ := pname_shape hout
+      obtain ⟨c0, tl0, htext⟩ : ∃ c0 tl0, out ++ after T .name (ch.at j) (pPunct ⟨T, ch⟩ k 0x7b R) = c0 :: tl0 := by
+        rw [hlo]; cases p <;> simp
+      have htext' : p ++ 0x3a :: (lo ++ after T .name (ch.at j) (pPunct ⟨T, ch⟩ k 0x7b R)) = c0 :: tl0 := by rw [← htext, hlo]; simp
+      obtain ⟨hso, h23⟩ := nameStart_solid hT2 (prefix_head hp _ c0 tl0 htext')
+      have s1 := Steps.tok hT2 hC (f := ⟨x0, .statement⟩) (s := s) (env := envOf st) hin
+        (show pLabel ⟨T, ch⟩ j (some (.iri (.pn p l))) (pPunct ⟨T, ch⟩ k 0x7b R) = c0 :: tl0 by
+          simp [pLabel, pIri, iriText, iriKind, hout, htext]) hso h23
+        (fn_statement_trig_term htr x0 (envOf st) _ _ _ _ _
+          (stepStatementRune_trig_pname hT hT2 hC htr x0 (envOf st) _ p l out ii _ c0 tl0 htext hp (scalars_of_B hps)
+            (scalars_of_B hls) hout hcl hex))
+        (by simpa using hE1 _ _ _ (after_skip (T := T) hC .name (ch.at j) (slot_ok hch j) _))
+      simpa [toT, Term.map] using s1
+  | bn l =>
+    simp only [dLabel, Option.some.injEq, Prod.mk.injEq] at hd
+    obtain ⟨rfl, rfl⟩ := hd
+    have hwf : labelWf T l = true := by simpa [glabelWf] using hwf
+    simp only [labelWf, Bool.and_eq_true] at hwf
+    have hcl := after_noclash hT2 .label (ch.at j) (pPunct ⟨T, ch⟩ k 0x7b R) (T := T)
+    refine ⟨{ x0 with graph := some (.bnode (.lbl l)) }, hxs, rfl, ?_⟩
+    have s1 := Steps.tok hT2 hC (f := ⟨x0, .statement⟩) (s := s) (env := envOf st) hin
+      (show pLabel ⟨T, ch⟩ j (some (.bn l)) (pPunct ⟨T, ch⟩ k 0x7b R) =
+        0x5f :: (0x3a :: l ++ after T .label (ch.at j) (pPunct ⟨T, ch⟩ k 0x7b R)) by simp [pLabel, pBNode])
+      (solid_pn (hT2.u_sub 0x5f hT2.us)) (by decide)
+      (fn_statement_trig_term htr x0 (envOf st) _ _ _ _ _
+        (stepStatementRune_trig_bnode hT hC htr x0 (envOf st) l _ (scalars_of_B hwf.1) hwf.2 hcl))
+      (by simpa using hE1 _ _ _ (after_skip (T := T) hC .label (ch.at j) (slot_ok hch j) _))
+    simpa [toT, Term.map, toBN] using s1
+  | anon =>
+    simp only [dLabel, Option.some.injEq, Prod.mk.injEq] at hd
+    obtain ⟨rfl, rfl⟩ := hd
+    have hA1 := after_skip (T := T) hC .punct (ch.at j) (slot_ok hch j) (0x5d :: after T .punct (ch.at (j + 1)) (pPunct ⟨T, ch⟩ k 0x7b R))
+    have hA2 := after_skip (T := T) hC .punct (ch.at (j + 1)) (slot_ok hch (j + 1)) (pPunct ⟨T, ch⟩ k 0x7b R)
+    refine ⟨{ x0 with graph := some (envOf st).fresh.1 }, hxs, rfl, ?_⟩
+    have s2 := Steps.fol hT2 hC (f := ⟨x0, .tgBracket (envOf st).fresh.1⟩) (s := ⟨x0, .statement⟩ :: s)
+      (env := (envOf st).fresh.2) hA1 (follows_solid hT2 hC (solid_delim (by decide) (by decide)) (by decide) _)
+      (fn_tgBracket_close _ _ _ _) (by simpa using hE1 _ _ _ hA2)
+    have s1 := Steps.tok hT2 hC (f := ⟨x0, .statement⟩) (s := s) (env := envOf st) hin
+      (show pLabel ⟨T, ch⟩ j (some .anon) (pPunct ⟨T, ch⟩ k 0x7b R) =
+        0x5b :: after T .punct (ch.at j) (0x5d :: after T .punct (ch.at (j + 1)) (pPunct ⟨T, ch⟩ k 0x7b R)) by simp [pLabel, pPunct])
+      (solid_delim (by decide) (by decide)) (by decide) (fn_statement_trig_bracket htr x0 (envOf st) _) (by simpa using s2)
+    simpa [envOf_fresh] using s1
+
+include hT hT2 hC hch in
+/-- a graph label after `GRAPH`, then `{` -/
+theorem label_kw (lab : GLabel) (hwf : glabelWf T lab = true) (j k : Nat) (x0 : Ectx) (S : List Frame)
+    (inp R : List Nat) (st st1 : DState) (gt : Option TermB) (hxs : x0.subj = none)
+    (hd : dLabel C.resolve st (some lab) = some (gt, st1))
+    (hin : SkEq C inp (pLabel ⟨T, ch⟩ j (some lab) (pPunct ⟨T, ch⟩ k 0x7b R))) :
+    ∃ (xg : Ectx), xg.subj = none ∧ xg.graph = gt.map toT ∧
+      Steps C .eof ⟨⟨x0, .graphLabel⟩ :: S, inp, envOf st⟩ []
+        ⟨⟨xg, .triplesBlock⟩ :: ⟨xg, .wrappedGraphEnd⟩ :: S, after T .punct (ch.at k) R, envOf st1⟩ := by
+  have hfb : Follows C (pPunct ⟨T, ch⟩ k 0x7b R) 0x7b (after T .punct (ch.at k) R) :=
+    follows_solid hT2 hC (solid_delim (by decide) (by decide)) (by decide) _
+  have hW : ∀ (xg : Ectx) (A : List Nat) (env : Env), SkEq C A (pPunct ⟨T, ch⟩ k 0x7b R) →
+      Steps C .eof ⟨⟨xg, .wrappedGraph⟩ :: S, A, env⟩ []
+        ⟨⟨xg, .triplesBlock⟩ :: ⟨xg, .wrappedGraphEnd⟩ :: S, after T .punct (ch.at k) R, env⟩ := by
+    intro xg A env hA
+    simpa using Steps.fol hT2 hC (f := ⟨xg, .wrappedGraph⟩) (s := S) (env := env) hA hfb (fn_wrappedGraph xg env _) (Steps.refl _)
+  cases lab with
+  | iri x1 =>
+    simp only [dLabel, Option.map_eq_some_iff] at hd
+    obtain ⟨ii, hii, heq⟩ := hd
+    simp only [Prod.mk.injEq] at heq
+    obtain ⟨rfl, rfl⟩ := heq
+    have hwf : iriWf T x1 = true := by simpa [glabelWf] using hwf
+    refine ⟨{ x0 with graph := some (.iri ii) }, hxs, rfl, ?_⟩
+    cases x1 with
+    | ref rr =>
+      have hs : Scalars rr := scalars_of_B (by simpa [iriWf] using hwf)
+      have hres : resolveIRI C (envOf st) rr = some ii := by rw [← iriOf_ref]; exact hii
+      have htext : printIRIREF (ch.at j).cs rr ++ after T .punct (ch.at j) (pPunct ⟨T, ch⟩ k 0x7b R) =
+          0x3c :: (printIriBody (ch.at j).cs rr ++ [0x3e] ++ after T .punct (ch.at j) (pPunct ⟨T, ch⟩ k 0x7b R)) := by simp [printIRIREF]
+      have hterm := termIRIREF_print hT hC (envOf st) (ch.at j).cs rr ii (after T .punct (ch.at j) (pPunct ⟨T, ch⟩ k 0x7b R)) hs hres
+      rw [htext] at hterm
+      have s1 := Steps.tok hT2 hC (f := ⟨x0, .graphLabel⟩) (s := S) (env := envOf st) hin
+        (show pLabel ⟨T, ch⟩ j (some (.iri (.ref rr))) (pPunct ⟨T, ch⟩ k 0x7b R) = _ by
+          simpa [pLabel, pIri, iriText, iriKind] using htext)
+        (solid_delim (by decide) (by decide)) (by decide)
+        (fn_graphLabel_term x0 (envOf st) 0x3c _ (by decide) _ _ _ (by simpa using hterm))
+        (by simpa using hW _ _ _ (after_skip (T := T) hC .punct (ch.at j) (slot_ok hch j) _))
+      simpa [toT, Term.map] using s1
+    | pn p l =>
+      simp only [iriWf, Bool.and_eq_true] at hwf
+      obtain ⟨⟨⟨hp, hps⟩, hls⟩, hpl⟩ := hwf
+      obtain ⟨out, hout⟩ := pname_printable (p := p) (ch.at j).cs hpl
+      have hex : (envOf st).expand p l = some ii := by rw [← iriOf_pn]; exact hii
+      have hcl := after_noclash hT2 .name (ch.at j) (pPunct ⟨T, ch⟩ k 0x7b R) (T := T)
+      obtain ⟨lo, hlo⟩ := pname_shape hout
+      obtain ⟨c0, tl0, htext⟩ : ∃ c0 tl0, out ++ after T .name (ch.at j) (pPunct ⟨T, ch⟩ k 0x7b R) = c0 :: tl0 := by
+        rw [hlo]; cases p <;> simp
+      have htext' : p ++ 0x3a :: (lo ++ after T .name (ch.at j) (pPunct ⟨T, ch⟩ k 0x7b R)) = c0 :: tl0 := by rw [← htext, hlo]; simp
+      have hns := prefix_head hp _ c0 tl0 htext'
+      obtain ⟨hso, h23⟩ := nameStart_solid hT2 hns
+      have hterm := termPName_print hT hC (envOf st) (ch.at j).cs p l out ii (after T .name (ch.at j) (pPunct ⟨T, ch⟩ k 0x7b R)) hp (scalars_of_B hps) (scalars_of_B hls) hout hcl hex
+      rw [htext] at hterm
+      obtain ⟨_, _, nu⟩ := nameStart_not_digit hT2 hns
+      have s1 := Steps.tok hT2 hC (f := ⟨x0, .graphLabel⟩) (s := S) (env := envOf st) hin
+        (show pLabel ⟨T, ch⟩ j (some (.iri (.pn p l))) (pPunct ⟨T, ch⟩ k 0x7b R) = c0 :: tl0 by
+          simp [pLabel, pIri, iriText, iriKind, hout, htext]) hso h23
+        (fn_graphLabel_term x0 (envOf st) c0 tl0 (nameStart_ne hT2 hns (by decide) (by decide)) _ _ _
+          (by rw [if_neg nu, if_neg (nameStart_ne hT2 hns (by decide) (by decide))]; exact hterm))
+        (by simpa using hW _ _ _ (after_skip (T := T) hC .name (ch.at j) (slot_ok hch j) _))
+      simpa [toT, Term.map] using s1
+  | bn l =>
+    simp only [dLabel, Option.some.injEq, Prod.mk.injEq] at hd
+    obtain ⟨rfl, rfl⟩ := hd
+    have hwf : labelWf T l = true := by simpa [glabelWf] using hwf
+    simp only [labelWf, Bool.and_eq_true] at hwf
+    have hcl := after_noclash hT2 .label (ch.at j) (pPunct ⟨T, ch⟩ k 0x7b R) (T := T)
+    refine ⟨{ x0 with graph := some (.bnode (.lbl l)) }, hxs, rfl, ?_⟩
+    have hterm := termBNode_print hT hC (envOf st) l (after T .label (ch.at j) (pPunct ⟨T, ch⟩ k 0x7b R)) (scalars_of_B hwf.1) hwf.2 hcl
+    simp only [List.cons_append] at hterm
+    have s1 := Steps.tok hT2 hC (f := ⟨x0, .graphLabel⟩) (s := S) (env := envOf st) hin
+      (show pLabel ⟨T, ch⟩ j (some (.bn l)) (pPunct ⟨T, ch⟩ k 0x7b R) =
+        0x5f :: (0x3a :: l ++ after T .label (ch.at j) (pPunct ⟨T, ch⟩ k 0x7b R)) by simp [pLabel, pBNode])
+      (solid_pn (hT2.u_sub 0x5f hT2.us)) (by decide)
+      (fn_graphLabel_term x0 (envOf st) 0x5f _ (by decide) _ _ _ (by simpa using hterm))
+      (by simpa using hW _ _ _ (after_skip (T := T) hC .label (ch.at j) (slot_ok hch j) _))
+    simpa [toT, Term.map, toBN] using s1
+  | anon =>
+    simp only [dLabel, Option.some.injEq, Prod.mk.injEq] at hd
+    obtain ⟨rfl, rfl⟩ := hd
+    have hA1 := after_skip (T := T) hC .punct (ch.at j) (slot_ok hch j) (0x5d :: after T .punct (ch.at (j + 1)) (pPunct ⟨T, ch⟩ k 0x7b R))
+    have hA2 := after_skip (T := T) hC .punct (ch.at (j + 1)) (slot_ok hch (j + 1)) (pPunct ⟨T, ch⟩ k 0x7b R)
+    refine ⟨{ x0 with graph := some (envOf st).fresh.1 }, hxs, rfl, ?_⟩
+    have s2 := Steps.fol hT2 hC (f := ⟨x0, .graphAnonClose⟩) (s := S)
+      (env := envOf st) hA1 (follows_solid hT2 hC (solid_delim (by decide) (by decide)) (by decide) _)
+      (fn_graphAnonClose _ _ _) (by simpa using hW _ _ _ hA2)
+    have s1 := Steps.tok hT2 hC (f := ⟨x0, .graphLabel⟩) (s := S) (env := envOf st) hin
+      (show pLabel ⟨T, ch⟩ j (some .anon) (pPunct ⟨T, ch⟩ k 0x7b R) =
+        0x5b :: after T .punct (ch.at j) (0x5d :: after T .punct (ch.at (j + 1)) (pPunct ⟨T, ch⟩ k 0x7b R)) by simp [pLabel, pPunct])
+      (solid_delim (by decide) (by decide)) (by decide) (fn_graphLabel_bracket x0 (envOf st) _) (by simpa using s2)
+    simpa [envOf_fresh] using s1
+
 end
 end RdfModel.C08
